@@ -6,7 +6,7 @@ Local Open Scope N_scope.
 
 Definition ex_cfg (org : option side) : config :=
   {| rootL := [1]; rootR := [2]; origin := org; check_spec := true; no_conflicted := true;
-     conflicted := [99]; step_bound := 10; cov_every_step := true |}.
+     conflicted := [99]; step_bound := 10; cov_every_step := true; declined := [77] |}.
 Definition ex_l0 : tree := [([1], Dir); ([5], Dir)].
 Definition ex_r0 : tree := [([2], Dir)].
 Definition ex_l1 : tree := [([1], Dir); ([5], Dir); ([1; 3], File 7)].
@@ -51,4 +51,11 @@ Example ex_rejected_lost :
   accept (ex_cfg None) ex_l0 ex_r0
     [ {| o_ev := EUser false (Create [1; 3] 7); o_L := ex_l1; o_R := ex_r0 |};
       {| o_ev := EEng false [[1; 3]]; o_L := ex_l0; o_R := ex_r0 |} ] = inr (1%nat, G_COVERED_STEP).
+Proof. vm_compute. reflexivity. Qed.
+
+(* an engine action on a path with a declined component (77) is rejected: DECLINED *)
+Example ex_rejected_declined :
+  accept (ex_cfg None) ex_l0 ex_r0
+    [ {| o_ev := EUser false (Create [1; 3] 7); o_L := ex_l1; o_R := ex_r0 |};
+      {| o_ev := EEng true [[2; 77]]; o_L := ex_l1; o_R := ex_r0 ++ [([2; 77], Dir)] |} ] = inr (1%nat, G_DECLINED).
 Proof. vm_compute. reflexivity. Qed.
